@@ -19,7 +19,8 @@ RULE = (
     "bytes baseline T(data)) at a generated start offset p (multiple of 16 for aligned structures, any for packed) "
     "behind two different random prefixes and in front of two different random suffixes, from every input kind {bytes, "
     "bytearray, memoryview, BytesIO, minimal read/seek/tell object, real file opened 'rb'} through every call form "
-    "{T(x), T.read(x), T.reads(x), cs.read(name, x)}; plus read sequences of 2-4 values parsed back-to-back from one "
+    "{T(x), T.read(x), T.reads(x), cs.read(name, x)}; definitions ending in x[EOF] also with an incomplete element "
+    "behind the last whole one (refused, or the whole elements with the stream left behind them); plus read sequences of 2-4 values parsed back-to-back from one "
     "stream. Oracle: equal canonical value and equal recorded sizes, tell() == p + consumed (consumed from the reference "
     "model), independence of bytes before p and after the extent, each read in a sequence returns its solo value and "
     "positions accumulate. Non-trivial = p > 0 with one of {alignment padding, union, nested struct, bit-field, dynamic "
@@ -73,6 +74,18 @@ def _sizes(obj):
     if not hasattr(obj, "_sizes"):
         return None
     return dict(obj._sizes or {})
+
+
+def _eof_elem_size(sem, t):
+    """Fixed element size of the to-end-of-stream array a structure ends in (None: no such array, or elements without one)."""
+    while t["k"] == "st" and t["fields"]:
+        t = sem.res(t["fields"][-1]["t"])
+    if t["k"] == "a" and t["len"][0] == "eof":
+        try:
+            return sem.size(t["t"])
+        except Exception:  # noqa: BLE001 - dynamically sized elements
+            return None
+    return None
 
 
 def run_case(case, ctx):
@@ -160,6 +173,26 @@ def run_case(case, ctx):
                 finally:
                     if kind == "file":
                         x.close()
+    # ---- a to-end-of-stream array followed by an incomplete element: refused, or (DESIGN §3.5) the whole elements -- then
+    # the stream stands behind the last whole element, the incomplete one is not swallowed
+    es = _eof_elem_size(sem, sem.res(common.ROOT)) if eof_def else None
+    if es and es > 1:
+        extra = bytes([0xEE]) * (1 + case.get("cut", 0) % (es - 1))
+        pre0 = bytes.fromhex(case["prefixes"][0])
+        for kind, mk in (("BytesIO", lambda: io.BytesIO(pre0 + data + extra)), ("minimal-filelike", lambda: MinimalStream(pre0 + data + extra, 0))):
+            x = mk()
+            x.seek(p)
+            r = lib(T, x)
+            n += 1
+            what = {"input_kind": kind, "p": p, "incomplete_element_bytes": len(extra), "element_size": es}
+            if isinstance(r, Err):
+                ctx.count("ragged-tail:raised:" + r.type)
+            else:
+                if libside.cplain(r) != bval:
+                    raise Violation("value-differs", f"{what}: {libside.cplain(r)!r}; the whole elements give {bval!r}: {desc(what)}")
+                if x.tell() != p + end:
+                    raise Violation("position-wrong", f"{what}: a value of {end} bytes was returned and the stream left at {x.tell()}, expected p + {end} = {p + end}: {desc(what)}")
+                ctx.count("ragged-tail:whole-elements")
     # ---- a truncated input: every input kind and call form gives the same outcome (same exception class, or same value)
     if end >= 1:
         cutpos = case.get("cut", 0) % end
